@@ -429,6 +429,52 @@ pub fn entity_ref_comps(e: &hecs::EntityRef<'_>) -> Vec<(usize, u64)> {
     (0..NTYPES).filter_map(|t| entity_ref_serial(e, t).map(|s| (t, s))).collect()
 }
 
+
+/// C01 "through every read accessor": the component of type `t` of `h` as each accessor reports it,
+/// compared with `EntityRef::get::<&T>` (what `obs` prints).  `None` = all agree.
+pub fn accessor_disagreement(world: &hecs::World, h: hecs::Entity, t: usize) -> Option<String> {
+    with_type!(t, T, {
+        let er = world.entity(h);
+        let base: Option<Option<u64>> = er.as_ref().ok().map(|e| e.get::<&T>().map(|r| r.serial()));
+        let mut seen: Vec<(&'static str, Option<Option<u64>>)> = Vec::new();
+        let comp = |r: Result<u64, hecs::ComponentError>| match r {
+            Ok(v) => Some(Some(v)),
+            Err(hecs::ComponentError::MissingComponent(_)) => Some(None),
+            Err(hecs::ComponentError::NoSuchEntity) => None,
+        };
+        seen.push(("World::get::<&T>", comp(world.get::<&T>(h).map(|r| r.serial()))));
+        seen.push(("World::get::<&mut T>", comp(world.get::<&mut T>(h).map(|r| r.serial()))));
+        seen.push(("World::get_unchecked::<&T>", comp(unsafe { world.get_unchecked::<&T>(h) }.map(|r| r.serial()))));
+        if let Ok(e) = er.as_ref() {
+            seen.push(("EntityRef::get::<&mut T>", Some(e.get::<&mut T>().map(|r| r.serial()))));
+            seen.push(("EntityRef::has::<T>", Some(if e.has::<T>() { base.unwrap() } else { None })));
+            let listed = e.component_types().any(|ty| ty == std::any::TypeId::of::<T>());
+            seen.push(("EntityRef::component_types", Some(if listed { base.unwrap() } else { None })));
+            seen.push(("EntityRef::satisfies::<&T>", Some(if e.satisfies::<&T>() { base.unwrap() } else { None })));
+            seen.push(("EntityRef::query::<&T>", Some(e.query::<&T>().get().map(|r| r.serial()))));
+        }
+        seen.push((
+            "World::satisfies::<&T>",
+            match world.satisfies::<&T>(h) {
+                Ok(true) => match base {
+                    Some(Some(v)) => Some(Some(v)),
+                    _ => Some(Some(CORRUPT)),
+                },
+                Ok(false) => Some(None),
+                Err(_) => None,
+            },
+        ));
+        seen.push((
+            "World::query_one::<&T>",
+            match world.query_one::<&T>(h) {
+                Ok(mut q) => Some(q.get().map(|r| r.serial())),
+                Err(_) => None,
+            },
+        ));
+        seen.into_iter().find(|(_, v)| *v != base).map(|(name, v)| format!("{}:type{}:{:?}!={:?}", name, t, v, base))
+    })
+}
+
 /// a static bundle type of the menu
 pub trait StaticBundle: hecs::Bundle + 'static {
     fn types() -> Vec<usize>;
